@@ -30,6 +30,12 @@ Events (first element = tag):
     ('attach',  prefix, has_validator, t)                  handler h = index of the attach event
     ('interest', k, name, has_params, sig, digest_ok, verdict, t)   sig: 0 none | 1 DigestSha256 ok | 2 DigestSha256 bad
                                                            verdict: what the harness validator (if consulted) answers
+                                                           digest_ok: True | False (own digest, one bit flipped)
+                                                           | 'reuse:<k0>' WRONG: the digest component is the one of Interest k0
+                                                             of the same history (before or after it), the parameters differ
+                                                           | 'copy:<k0>'  RIGHT: the very packet of Interest k0 once more (a
+                                                             retransmission; name / has_params / sig must repeat k0's)
+                                                           non-empty ApplicationParameters are unique per run and per k
     ('arrive', k, name, has_params, sig, digest_ok, t)     an Interest whose application-supplied validator (if one is
                                                            consulted) SUSPENDS until ('ivdone', k, verdict, t); the
                                                            application may change its routes in between
@@ -42,6 +48,9 @@ Events (first element = tag):
                                                            express so far.  Model and specification see neither (names are
                                                            values there; a scrib only advances the clock)
 Verdicts: v2: 0 FAIL 1 TIMEOUT 2 SILENCE 3 PASS 4 ALLOW_BYPASS 5 (raise TimeoutError);  v1: index into V1_VALUES.
+In every place of a verdict (vmode ('imm', v), 'vdone', 'interest', 'ivdone') v may also be 'raise:<Class>': the validator
+TERMINATES WITH AN EXCEPTION of that class instead of answering (raise_outcomes(): every exception class ndn.types defines
+plus some built-in ones) - at once, or, for a suspended validator, when it is resumed.
 """
 import asyncio
 import contextvars
@@ -62,6 +71,58 @@ V1_VALUES = [False, True, None, 0, 1, '', 'x', [], [0]]      # truthiness is wha
 
 def v1_truth(k):
     return bool(V1_VALUES[k])
+
+
+# ---- validator outcomes that are not a verdict: the validator terminates with an exception ------------------
+RAISE = 'raise:'
+# built-in classes a validator (one that fetches certificates over the network, looks keys up, ...) ends with
+RAISE_BUILTIN = ['Exception', 'TimeoutError', 'CancelledError', 'OSError']
+# PendingIntEntry.satisfy (appv2, Data) turns these two into the verdict TIMEOUT (model verdict 5)
+RAISE_AS_TIMEOUT_V2 = (RAISE + 'TimeoutError', RAISE + 'CancelledError')
+
+
+def is_raise(v):
+    return isinstance(v, str) and v.startswith(RAISE)
+
+
+def raise_outcomes():
+    """'raise:<Class>' for every exception class the library defines (reflected from ndn.types, so a class added
+    there is covered) and for RAISE_BUILTIN."""
+    import ndn.types as T
+    lib = sorted(n for n, c in vars(T).items()
+                 if isinstance(c, type) and issubclass(c, BaseException) and c.__module__ == T.__name__)
+    return [RAISE + n for n in lib + RAISE_BUILTIN]
+
+
+def make_exception(v):
+    import builtins
+    import ndn.types as T
+    n = v[len(RAISE):]
+    c = getattr(T, n, None)
+    if not (isinstance(c, type) and issubclass(c, BaseException)):
+        c = asyncio.CancelledError if n == 'CancelledError' else getattr(builtins, n)
+    for args in ((), (150,), ([], None, None, None)):
+        try:
+            return c(*args)
+        except TypeError:
+            continue
+    raise ValueError(v)
+
+
+def dies_v2(fe, v):
+    """appv2, Data validator: an exception other than TimeoutError / CancelledError kills the task running
+    PendingIntEntry.satisfy; nobody resolves the future: for the pipeline that validator never answers."""
+    return fe == 'v2' and is_raise(v) and v not in RAISE_AS_TIMEOUT_V2
+
+
+def dok_true(dok):
+    """Is the parameters digest of an incoming Interest right (the digest_ok field of 'interest' / 'arrive')."""
+    if isinstance(dok, str):
+        return dok.startswith('copy:')
+    return bool(dok)
+
+
+_SALT = [0]        # ApplicationParameters are unique per World (= per case): nothing a case sends was seen by the process before
 
 
 def comp(k):
@@ -189,6 +250,10 @@ class World:
         self.nb = NB.Buffers()     # what the caller owns: buffers handed to express, where the expressed names live in them
         self.reprs = {}            # i -> representation kind of the next Express of i
         self.k = 0                 # index of the event being run
+        self.raised = []           # the exception objects harness validators terminated with ('raise:<Class>')
+        _SALT[0] += 1
+        self.salt = _SALT[0]
+        self.history = []
         self.main = self.loop.create_task(self.app.main_loop())
         self.loop.settle()
 
@@ -255,6 +320,10 @@ class World:
         return validator
 
     def verdict_value(self, v):
+        if is_raise(v):
+            e = make_exception(v)
+            self.raised.append(e)
+            raise e
         if self.fe == 'v2':
             from ndn.types import ValidResult as VR
             if v == 5:
@@ -456,17 +525,38 @@ class World:
                 self.app.int_validator = self.lib_int_validator
         return fn
 
-    def interest_wire(self, name, has_params, sig, digest_ok):
-        from ndn.encoding import make_interest, InterestParam
+    def interest_of(self, k0):
+        for ev in self.history:
+            if ev[0] in ('interest', 'arrive') and ev[1] == k0:
+                return ev
+        raise ValueError(f'no Interest {k0} in the history')
+
+    def interest_wire(self, name, has_params, sig, digest_ok, k=None):
+        from ndn.encoding import make_interest, InterestParam, parse_interest
         from ndn.security import DigestSha256Signer
-        n = [comp(k) for k in name]
+        if isinstance(digest_ok, str) and digest_ok.startswith('copy:'):
+            ev0 = self.interest_of(int(digest_ok[5:]))
+            return self.interest_wire(ev0[2], ev0[3], ev0[4], ev0[5], ev0[1])
+        n = [comp(c) for c in name]
         signer = DigestSha256Signer() if sig else None
         # has_params: False | True (non-empty) | 2 (ApplicationParameters present with zero length: still parameters)
-        app_param = (b'' if has_params == 2 else b'param') if has_params else (b'' if sig else None)
+        fresh = b'param' if k is None else b'param-%d-%d' % (self.salt, k)
+        app_param = (b'' if has_params == 2 else fresh) if has_params else (b'' if sig else None)
         w = bytearray(make_interest(n, InterestParam(nonce=9, lifetime=4000), app_param, signer=signer))
         if sig == 2:
             w[-1] ^= 0x55            # last byte of the signature value
-        if (has_params or sig) and not digest_ok:
+        if isinstance(digest_ok, str) and digest_ok.startswith('reuse:') and (has_params or sig):
+            # the ParametersSha256DigestComponent (last name component) of Interest k0 - a digest that IS right for k0's
+            # packet - on a packet with other parameters / name / signature elements
+            ev0 = self.interest_of(int(digest_ok[6:]))
+            nm0, _, _, _ = parse_interest(self.interest_wire(ev0[2], ev0[3], ev0[4], True, ev0[1]))
+            nm, _, _, _ = parse_interest(bytes(w))
+            last, last0 = bytes(nm[-1]), bytes(nm0[-1])
+            if len(last) != len(last0) or last == last0:
+                raise ValueError('harness: digest re-use needs two different packets with a digest component each')
+            pos = bytes(w).find(last)
+            w[pos:pos + len(last)] = last0
+        elif (has_params or sig) and not digest_ok:
             # corrupt the ParametersSha256DigestComponent (last name component, 32 bytes): flip its last byte
             from ndn.encoding import parse_interest
             nm, _, _, _ = parse_interest(bytes(w))
@@ -486,7 +576,7 @@ class World:
         return bytes(w)
 
     def ev_interest(self, k, name, has_params, sig, digest_ok, verdict, deferred=False):
-        wire = self.interest_wire(name, has_params, sig, digest_ok)
+        wire = self.interest_wire(name, has_params, sig, digest_ok, k)
         inner = self.recv(5, wire)
 
         def fn():
@@ -569,6 +659,7 @@ class World:
 
     def run(self, history):
         self.n_attach = 0
+        self.history = list(history)
         for k, ev in enumerate(history):
             self.k = k
             self.step(ev)
@@ -578,10 +669,17 @@ class World:
         gc.collect()
         self.loop.settle()
         loop_errs = []
+        escaped = []
         from ndn import types as T
         for c in self.loop.errors:
             exc = c.get('exception')
             msg = c.get('message', '')
+            if exc is not None and any(exc is x for x in self.raised):
+                # the very exception object a harness validator terminated with left the task the library had created
+                # for it (submit_interest / PendingIntEntry.satisfy): the application's own fault coming back, reported
+                # apart (what matters to the properties is what reached the handler / the caller)
+                escaped.append(type(exc).__name__)
+                continue
             if 'Future exception was never retrieved' in msg and isinstance(exc, (T.InterestNack, T.ValidationFailure)):
                 # a Nack / validation failure that lost a same-turn race against the timer: asyncio logs the
                 # superseded future at garbage collection; the Interest itself completed (with Timeout)
@@ -600,6 +698,7 @@ class World:
             'ivwho': list(self.ivwho),
             'validated_before': dict(self.validated_before),
             'alias_changes': self.nb.report(),
+            'escaped': escaped,
         }
         return obs
 
@@ -664,6 +763,10 @@ VR_NAMES = {'FAIL': 0, 'TIMEOUT': 1, 'SILENCE': 2, 'PASS': 3, 'ALLOW_BYPASS': 4}
 
 
 def m_verdict(fe, v):
+    """A validator that terminates with an exception gave no accepting verdict: a non-passing model verdict
+    (V2: 5, the model's 'raised'; V1: 0 - what is modelled is whether the validator accepted)."""
+    if is_raise(v):
+        return 5 if fe == 'v2' else 0
     return v if fe == 'v2' else (1 if v1_truth(v) else 0)
 
 
@@ -675,7 +778,7 @@ def m_event(fe, ev):
     tag = ev[0]
     if tag == 'express':
         _, i, name, cbp, dig, life, vmode, t, tie = ev
-        vm = [0, m_verdict(fe, vmode[1])] if vmode[0] == 'imm' else [1]
+        vm = [0, m_verdict(fe, vmode[1])] if vmode[0] == 'imm' and not dies_v2(fe, vmode[1]) else [1]
         return [tie, [0, i, list(name), cbp, m_dig(dig), life, vm, t]]
     if tag == 'await':
         return [ev[3], [1, ev[1], ev[2]]]
@@ -684,6 +787,8 @@ def m_event(fe, ev):
     if tag == 'nack':
         return [ev[5], [3, list(ev[1]), m_dig(ev[2]), nack_reason_value(ev[3]), ev[4]]]
     if tag == 'vdone':
+        if dies_v2(fe, ev[2]):
+            return [ev[4], [7, ev[3]]]        # the validation task dies: no verdict ever (see m_history)
         return [ev[4], [4, ev[1], m_verdict(fe, ev[2]), ev[3]]]
     if tag == 'cancel':
         return [ev[3], [5, ev[1], ev[2]]]
@@ -695,7 +800,7 @@ def m_event(fe, ev):
         return [0, [8, list(ev[1]), ev[2], ev[3]]]
     if tag == 'interest':
         _, k, name, hp, sig, dok, verdict, t = ev
-        return [0, [9, k, list(name), hp, sig, dok, m_verdict(fe, verdict), t]]
+        return [0, [9, k, list(name), hp, sig, dok_true(dok), m_verdict(fe, verdict), t]]
     if tag == 'setdefault':
         return [0, [10, ev[1], ev[2]]]
     if tag == 'scrib':
@@ -705,8 +810,29 @@ def m_event(fe, ev):
     raise ValueError(tag)
 
 
-def m_history(fe, h):
-    return [m for m in (m_event(fe, e) for e in h) if m is not None]
+def m_history(fe, h, ctx=None):
+    """The history in the model's vocabulary.  An appv2 Data validator that dies (dies_v2) is a validator that never answers:
+    its 'vdone' becomes a plain passage of time, and so do the later 'vdone' events of that Interest IF the validator was
+    running when it died (the future it waited on is gone; a 'vdone' that comes before the validator was called finds
+    nothing to resume, in the driver as in the model, and a later one still counts).  Whether it was running is read off the
+    model itself (the validator invocations after the translated prefix) when [ctx] is given; without it: assumed."""
+    out = []
+    dead = set()          # appv2 Interests whose Data validator died
+    for e in h:
+        if e[0] == 'vdone' and dies_v2(fe, e[2]):
+            if e[1] not in dead:
+                if ctx is None or any(x[0] == e[1] for x in ctx.call([1, fe_num(fe), out])[5]):
+                    dead.add(e[1])
+            out.append([e[4], [7, e[3]]])
+        elif e[0] == 'vdone' and e[1] in dead:
+            out.append([e[4], [7, e[3]]])
+        else:
+            if e[0] == 'express' and e[6][0] == 'imm' and dies_v2(fe, e[6][1]):
+                dead.add(e[1])
+            m = m_event(fe, e)
+            if m is not None:          # representation events are harness-level only
+                out.append(m)
+    return out
 
 
 def fe_num(fe):
@@ -714,7 +840,7 @@ def fe_num(fe):
 
 
 def run_model(ctx, fe, h):
-    a = ctx.call([1, fe_num(fe), m_history(fe, h)])
+    a = ctx.call([1, fe_num(fe), m_history(fe, h, ctx)])
     log, face_out, errs, pit_nodes, pit_entries, vcalls, refused, hcalls, ivcalls = a
     return {
         'completion': {x[0]: (tuple(x[1]), x[2]) for x in log},
@@ -732,7 +858,7 @@ def run_model(ctx, fe, h):
 
 def spec_states(ctx, fe, h, ids):
     """Specification automaton (Spec/ExpressSpec.v, extracted) on the history: id -> state tuple."""
-    a = ctx.call([2, fe_num(fe), m_history(fe, h), list(ids)])
+    a = ctx.call([2, fe_num(fe), m_history(fe, h, ctx), list(ids)])
     out = {}
     for i, x in zip(ids, a):
         out[i] = (x[0],) if x[0] in (0, 1) else ((2, x[1]) if x[0] == 2 else (3, tuple(x[1])))
@@ -771,6 +897,7 @@ def canon_impl(fe, obs):
         'ivwho': list(obs.get('ivwho', [])),
         'validated_before': obs.get('validated_before', {}),
         'alias_changes': obs.get('alias_changes', []),
+        'escaped': list(obs.get('escaped', [])),
     }
 
 
